@@ -584,6 +584,7 @@ theorem map_done_all {α : Type} (chk : α → Option Err) (pri : List Key) (key
 def Entity.merged (d : Defects) (pri : List Key) (nsn : String) (old new : Entity) : Entity :=
   { old with
     deprecated := new.deprecated
+    fullText := new.fullText
     fields := old.fields.map (fun f => mergeField f new.fields) ++
       renumber (reservedShort + old.fields.length)
         (if d.hashOrderIds then prio pri (fun (f : Field) => Key.fld nsn old.name f.name) (old.fresh new) else old.fresh new)
@@ -1257,7 +1258,7 @@ theorem settled_self (nfs : List Field) (hnd : (nfs.map (·.name)).Nodup) (f : F
 
 /-- entity `e'` of the model already is what entity `ne` of the new version says -/
 def Entity.Settled (e' ne : Entity) : Prop :=
-  e'.name = ne.name ∧ e'.k = ne.k ∧ e'.deprecated = ne.deprecated ∧ e'.indexes = ne.indexes ∧
+  e'.name = ne.name ∧ e'.k = ne.k ∧ (e'.deprecated = ne.deprecated ∧ e'.fullText = ne.fullText) ∧ e'.indexes = ne.indexes ∧
     e'.fields.map (·.name) = ne.fields.map (·.name) ∧ ∀ f' ∈ e'.fields, f'.Settled ne.fields
 
 theorem fresh_nil_of_names {e' ne : Entity} (h : e'.fields.map (·.name) = ne.fields.map (·.name)) : e'.fresh ne = [] := by
@@ -1288,7 +1289,7 @@ theorem Entity.Settled.merged_eq (d : Defects) (pri : List Key) (nsn : String) {
     simpa using (h.2.2.2.2.2 f hf).merge
   unfold Entity.merged
   rw [hfresh, hmap, prio_nil]
-  simp only [ite_self, renumber, List.append_nil, ← h.2.2.1, ← h.2.2.2.1]
+  simp only [ite_self, renumber, List.append_nil, ← h.2.2.1.1, ← h.2.2.1.2, ← h.2.2.2.1]
   have : (e'.indexes.filter fun ix => !e'.indexes.contains ix) = [] := by
     rw [List.filter_eq_nil_iff]; intro ix hix; simp [hix]
   rw [this]
@@ -1308,7 +1309,7 @@ theorem settled_of_merged (pri : List Key) (nsn : String) (d : Defects) (hd : d.
   · exact settled_self ne.fields hne.1 f' (List.mem_of_mem_drop hf')
 
 theorem settled_refl (ne : Entity) (hne : ne.WF) : ne.Settled ne :=
-  ⟨rfl, rfl, rfl, rfl, rfl, fun f hf => settled_self ne.fields hne.1 f hf⟩
+  ⟨rfl, rfl, ⟨rfl, rfl⟩, rfl, rfl, fun f hf => settled_self ne.fields hne.1 f hf⟩
 
 /-- namespace `x'` of the model already is what namespace `nn` of the new version says -/
 def Ns.Settled (x' nn : Ns) : Prop :=
